@@ -79,7 +79,7 @@ def mpc_hash(z):
 
 def mpc_conjugate(z, prec, rnd=round_fast):
     re, im = z
-    return re, mpf_neg(im, prec, rnd)
+    return mpf_pos(re, prec, rnd), mpf_neg(im, prec, rnd)
 
 def mpc_is_nonzero(z):
     return z != mpc_zero
